@@ -127,6 +127,29 @@ def sta_lta_clause(cl, rng, n, replay):
                 cl.fail("hvsrpy.window_rejection.sta_lta_window_rejection", "accept masks of the attached HVSR object differ from the selection", signature="stalta:masks",
                         expected=want, valid_window=t.valid_window_boolean_mask, valid_peak=t.valid_peak_boolean_mask)
                 return
+        # the decision is about the samples the windows hold *now*: after a kept and a rejected window of equal length have exchanged their samples in place, the same call
+        # keeps the other one
+        if hv is None and len(set(Ns)) == 1 and any(want) and not all(want):
+            a, b_ = want.index(True), want.index(False)
+            for c in ("ns", "ew", "vt"):
+                xa, xb = getattr(recs[a], c).amplitude, getattr(recs[b_], c).amplitude
+                tmp = xa.copy()
+                xa[:] = xb
+                xb[:] = tmp
+            again = hvsrpy.sta_lta_window_rejection(recs, sta_seconds=sta, lta_seconds=lta, min_sta_lta_ratio=mn, max_sta_lta_ratio=mx, components=comps)
+            want2 = list(want)
+            want2[a], want2[b_] = want[b_], want[a]
+            kept2 = [r for r, w in zip(recs, want2) if w]
+            cl.case((j, "after exchanging the samples of windows", a, b_))
+            if len(again) != len(kept2) or any(x is not y for x, y in zip(again, kept2)):
+                cl.fail("hvsrpy.window_rejection.sta_lta_window_rejection", f"after windows {a} (kept) and {b_} (rejected) exchanged their samples in place, the same call did not "
+                        f"keep exactly the windows that satisfy the criterion now (expected keep={want2})", signature="stalta:after-in-place-edit")
+                return
+            for c in ("ns", "ew", "vt"):            # put the samples back for the checks below
+                xa, xb = getattr(recs[a], c).amplitude, getattr(recs[b_], c).amplitude
+                tmp = xa.copy()
+                xa[:] = xb
+                xb[:] = tmp
         # several components == conjunction of single components; widening the limits only turns reject into keep
         if len(comps) > 1 and hv is None:
             single = [set(map(id, hvsrpy.sta_lta_window_rejection(recs, sta_seconds=sta, lta_seconds=lta, min_sta_lta_ratio=mn, max_sta_lta_ratio=mx, components=(c,)))) for c in comps]
